@@ -480,6 +480,70 @@ class World(object):
         self.event("deepcopy", op["id"])
         return r
 
+    def op_respell(self, op, rng):
+        """A FOREIGN but equivalent document: every {"string": <python literal>} entry is spelled differently (all
+        characters escaped / the running interpreter's repr / double quotes) - the reader evaluates the literal,
+        so the new document denotes the same data.  It becomes an ordinary pool member: loading it must give
+        equal data and may not change what any later call on OTHER objects returns (P2)."""
+        import ast
+
+        s = self.slots[op["in"][0]]
+        doc = copy.deepcopy(s.value)
+        n = [0]
+        style = op.get("style", "escape")
+
+        def alt_of(lit):
+            try:
+                v = ast.literal_eval(lit)
+            except Exception:
+                return None
+            if not isinstance(v, str):
+                return None
+            cands = []
+            esc = "".join("\\u%04x" % ord(ch) if ord(ch) < 0x10000 else "\\U%08x" % ord(ch) for ch in v)
+            if style == "repr":
+                cands.append(repr(v))
+            elif style == "double":
+                body = ascii(v)[1:-1] if ascii(v)[0] == "'" else None
+                if body is not None and '"' not in body:
+                    cands.append('"' + body.replace("\\'", "'") + '"')
+            cands.append("'" + esc + "'")
+            for c in cands:
+                try:
+                    if c != lit and ast.literal_eval(c) == v and [ord(x) for x in ast.literal_eval(c)] == [ord(x) for x in v]:
+                        return c
+                except Exception:
+                    continue
+            return None
+
+        def walk(v):
+            if isinstance(v, dict):
+                if len(v) == 1 and isinstance(v.get("string"), str):
+                    a = alt_of(v["string"])
+                    if a is not None:
+                        v["string"] = a
+                        n[0] += 1
+                    return
+                for x in v.values():
+                    walk(x)
+            elif isinstance(v, list):
+                for x in v:
+                    walk(x)
+
+        walk(doc)
+        if not n[0]:
+            self.count("respell_noop")
+            self.event("respell-noop", op["id"])
+            return None
+        r = self.add_slot(op, "doc", doc, s.lineage, s.route + ["respell"], parent=s)
+        r.normalized = s.normalized
+        r.decoded = s.decoded
+        self.count("fault_foreign_spelling_of_string_entries")
+        self.count("respelled_string_entries", n[0])
+        self.faults_fired += 1
+        self.event("respell", op["id"], n[0], style)
+        return r
+
     def op_alias(self, op, rng):
         """F2: a second document sharing every nested container with the first."""
         s = self.slots[op["in"][0]]
